@@ -29,6 +29,7 @@ AB == <<97, 98>>
 INC == <<105, 46, 108, 105, 113>>       \* i.liq, registered in the engine's cache next to the template
 IncBody == <<T(<<40, 32>>), TL, Ob(Var(X)), TR, T(<<32, 41>>)>>
 TopPath == <<116, 46, 108, 105, 113>>
+LongWord == [i \in 1..90 |-> 97 + (i % 26)]
 Progs == <<
   (* 1 text only: the only write is the final flush *) <<T(AB)>>,
   (* 2 *) <<T(AB), Ob(Var(X)), T(<<99>>)>>,
@@ -74,7 +75,10 @@ Progs == <<
   <<T(<<108, 111, 110, 103, 32, 116, 101, 120, 116, 32, 104, 101, 114, 101>>), [t |-> "include", e |-> Lit(Str(INC))],
     T(<<97, 110, 111, 116, 104, 101, 114, 32, 108, 111, 110, 103, 32, 111, 110, 101>>), Ob(Var(X)),
     T(<<121, 101, 116, 32, 97, 110, 111, 116, 104, 101, 114, 32, 111, 110, 101>>),
-    [t |-> "for", tag |-> "tablerow", var |-> X, coll |-> R13, lim |-> Lit(IntV(1)), body |-> <<>>]>>
+    [t |-> "for", tag |-> "tablerow", var |-> X, coll |-> R13, lim |-> Lit(IntV(1)), body |-> <<>>]>>,
+  (* 22 long chunks of text without any white space (inline data), after an object, between tablerow cells, at the end *)
+  <<Ob(Var(X)), T(LongWord), Ob(Var(X)),
+    [t |-> "for", tag |-> "tablerow", var |-> X, coll |-> R13, cols |-> Lit(IntV(2)), body |-> <<T(LongWord), Ob(Var(X))>>], T(LongWord)>>
 >>
 Env2 == << <<X, Str(<<88>>)>>, <<<<108>>, Arr(<<IntV(1), Str(<<50>>), Nil, IntV(3)>>)>>, <<<<101>>, Arr(<<>>)>> >>
 Cx == [Cx0 EXCEPT !.pol = [Intended EXCEPT !.flushErr = FlushPolicy], !.path = TopPath, !.cache = << <<INC, IncBody>> >>]
